@@ -25,6 +25,7 @@ import (
 	"sync"
 	cremerrors "github.com/LindsayBradford/crem/pkg/errors"
 	"errors"
+	pkgerrors "github.com/pkg/errors"
 	"fmt"
 	"math"
 	"strconv"
@@ -63,14 +64,31 @@ type hookExplorer struct {
 	site              string // none | init | try | cool | coola | fattr | down (observer sites live in the recorders)
 	at                int
 	asError           bool
+	errKind           int // which kind of error value (injectedError)
 	iter              int
 	finalState        string // the explorer's result as it stands when TearDown is entered
 	mute              bool
 }
 
+// injectedError: the error values a failing iteration may panic with - a plain one, one of github.com/pkg/errors (which carries
+// a stack), wrapped ones of both libraries (they have a cause chain): the annealer re-raises every one of them
+func injectedError(kind int) error {
+	switch kind % 5 {
+	case 1:
+		return pkgerrors.New("injected failure")
+	case 2:
+		return pkgerrors.Wrap(errors.New("injected failure"), "while exploring")
+	case 3:
+		return fmt.Errorf("while exploring: %w", errors.New("injected failure"))
+	case 4:
+		return pkgerrors.WithStack(pkgerrors.WithMessage(errors.New("injected failure"), "while exploring"))
+	}
+	return errors.New("injected failure")
+}
+
 func (h *hookExplorer) raise() {
 	if h.asError {
-		panic(errors.New("injected failure"))
+		panic(injectedError(h.errKind))
 	}
 	panic("injected failure")
 }
@@ -212,6 +230,7 @@ type traceRecorder struct {
 	panicKind    byte
 	panicAt      int
 	asError      bool
+	errKind      int
 	iterThisCall int
 }
 
@@ -268,7 +287,7 @@ func (r *traceRecorder) ObserveEvent(e observer.Event) {
 	if r.panicKind == k && (k == 'S' || k == 'F' || r.iterThisCall == r.panicAt) {
 		*r.log = append(*r.log, fmt.Sprintf("!%d", r.index))
 		if r.asError {
-			panic(errors.New("injected failure"))
+			panic(injectedError(r.errKind))
 		}
 		panic("injected failure")
 	}
@@ -433,7 +452,7 @@ func runAnnealCase(c *Ctx, ac annealCase) {
 		}
 		ann.Initialise()
 		inner := buildInnerExplorer(ac.expl)
-		hook = &hookExplorer{Explorer: inner, log: &log, site: ac.site, at: ac.at, asError: ac.asError}
+		hook = &hookExplorer{Explorer: inner, log: &log, site: ac.site, at: ac.at, asError: ac.asError, errKind: ac.at + ac.N}
 		if ac.observerSite() {
 			hook.site = "none"
 		}
@@ -503,7 +522,7 @@ func runAnnealCase(c *Ctx, ac annealCase) {
 					r.merged = &log
 				}
 				if ac.observerSite() && ac.obs == i {
-					r.panicKind, r.panicAt, r.asError = ac.site[3], ac.at, ac.asError
+					r.panicKind, r.panicAt, r.asError, r.errKind = ac.site[3], ac.at, ac.asError, ac.at+ac.N
 				}
 				recorders[i] = r
 				add(r)
